@@ -35,9 +35,11 @@ EXTENDS Geo, TLC
 \* d <| en/ed in reduced form (rd = reduced distance of Geo: L2 -> squared)
 LhsR(metric, ed, rd) == IF metric = "l2" THEN ed * ed * rd ELSE ed * rd
 RhsR(metric, en)     == IF metric = "l2" THEN en * en ELSE en
+\* ed = 0 codes the infinite tolerance (the default of Optics::params): every point is within it
 WithinR(metric, en, ed, inc, rd) ==
-  IF inc THEN LhsR(metric, ed, rd) <= RhsR(metric, en) ELSE LhsR(metric, ed, rd) < RhsR(metric, en)
-OnRadiusR(metric, en, ed, rd) == LhsR(metric, ed, rd) = RhsR(metric, en)
+  IF ed = 0 THEN TRUE
+  ELSE IF inc THEN LhsR(metric, ed, rd) <= RhsR(metric, en) ELSE LhsR(metric, ed, rd) < RhsR(metric, en)
+OnRadiusR(metric, en, ed, rd) == ed # 0 /\ LhsR(metric, ed, rd) = RhsR(metric, en)
 
 \* distance matrix (reduced form) of a sequence of lattice points
 DistM(P, metric) == [i \in 1..Len(P) |-> [j \in 1..Len(P) |-> RDist(metric, P[i], P[j])]]
@@ -94,6 +96,12 @@ DbscanOk(lab, Nb, mp) == DbscanWhy(lab, Nb, mp) = "ok"
 CoreDist(D, i, mp) ==
   LET row == D[i] IN MinSet({v \in Range(row) : Cardinality({j \in DOMAIN row : row[j] <= v}) >= mp})
 
+\* the same for a core point, looking only at its neighbourhood: a core point has at least mp points within
+\* the tolerance, and "within the tolerance" is a lower set of distances, so the mp smallest distances overall
+\* are the mp smallest among the neighbours (InvKth checks that the formulations agree)
+CoreDistNb(D, Nb, i, mp) ==
+  MinSet({v \in {D[i][j] : j \in Nb[i]} : Cardinality({j \in Nb[i] : D[i][j] <= v}) >= mp})
+
 Undef == [def |-> FALSE, i |-> 0, exact |-> TRUE]
 Def(v) == [def |-> TRUE, i |-> v, exact |-> TRUE]
 
@@ -101,26 +109,29 @@ OpOnce(ord, D) ==
   /\ Len(ord) = Len(D)
   /\ {ord[p].idx + 1 : p \in DOMAIN ord} = 1..Len(D)
 \* core distance defined iff the mp-th nearest neighbour lies within the tolerance, and then equal to it
-OpCore(ord, D, C, mp) ==
+\* (CD[i] = CoreDist(D, i, mp) for the core points, computed once per evaluation of the relation)
+OpCore(ord, C, CD) ==
   \A p \in DOMAIN ord :
      LET i == ord[p].idx + 1 IN
      /\ ord[p].core.def <=> i \in C
-     /\ i \in C => ord[p].core.exact /\ ord[p].core.i = CoreDist(D, i, mp)
+     /\ i \in C => ord[p].core.exact /\ ord[p].core.i = CD[i]
 \* reachability undefined, or max(core(o), d(o,i)) for a core point o within the tolerance listed no later
-OpReach(ord, D, Nb, C, mp) ==
+OpReach(ord, D, Nb, C, CD) ==
   \A p \in DOMAIN ord :
      LET i == ord[p].idx + 1 IN
      ord[p].reach.def =>
         /\ ord[p].reach.exact
         /\ \E q \in 1..p :
              LET o == ord[q].idx + 1 IN
-             o \in C /\ o \in Nb[i] /\ ord[p].reach.i = Max2(CoreDist(D, o, mp), D[o][i])
+             o \in C /\ o \in Nb[i] /\ ord[p].reach.i = Max2(CD[o], D[o][i])
 
 OpticsWhy(ord, D, Nb, mp) ==
-  LET C == CoreSet(Nb, mp) IN
+  LET C  == CoreSet(Nb, mp)
+      CD == [i \in DOMAIN D |-> IF i \in C THEN CoreDistNb(D, Nb, i, mp) ELSE -1]
+  IN
   IF ~OpOnce(ord, D) THEN "every_sample_exactly_once"
-  ELSE IF ~OpCore(ord, D, C, mp) THEN "core_distance"
-  ELSE IF ~OpReach(ord, D, Nb, C, mp) THEN "reachability_from_earlier_core"
+  ELSE IF ~OpCore(ord, C, CD) THEN "core_distance"
+  ELSE IF ~OpReach(ord, D, Nb, C, CD) THEN "reachability_from_earlier_core"
   ELSE "ok"
 OpticsOk(ord, D, Nb, mp) == OpticsWhy(ord, D, Nb, mp) = "ok"
 
@@ -129,21 +140,22 @@ OpticsOk(ord, D, Nb, mp) == OpticsWhy(ord, D, Nb, mp) = "ok"
 
 CONSTANTS Variant,      \* "ok" | "noncore_extends" | "start_in_seeds" | "count_excl_self"
           Lattices,     \* set of lattices, each coded dim * 100 + maxcoord (cfg files have no tuples)
-          MaxPts,       \* number of points 0..MaxPts
+          MinPts, MaxPts, \* number of points MinPts..MaxPts
           MinPtsSet,    \* values of min_points
-          EpsSet        \* set of tolerances en/ed, each coded en * 10 + ed  (ed in {1, 2, 4})
+          EpsSet        \* set of tolerances en/ed, each coded en * 10 + ed  (ed in {1, 2, 4}; code 0 = infinite)
 
 VARIABLES alg,          \* "dbscan" | "optics"
           pts, metric, mp, eps, inc,     \* the input, chosen in Init
+          dm, nb,       \* distance matrix and neighbourhoods of the input (functions of the input, cached)
           pc, oi,       \* control, outer index (1-based)
           lab, cur, queue,               \* dbscan: labels, current cluster id, search queue (as a set = search_found)
           ord, processed, rch, seeds     \* optics: output list, processed set, reachability (-1 undefined), seed list
 
-vars == <<alg, pts, metric, mp, eps, inc, pc, oi, lab, cur, queue, ord, processed, rch, seeds>>
+vars == <<alg, pts, metric, mp, eps, inc, dm, nb, pc, oi, lab, cur, queue, ord, processed, rch, seeds>>
 
 MN  == Len(pts)
-MD  == DistM(pts, metric)
-MNb == NbF(MD, metric, eps[1], eps[2], inc)
+MD  == dm
+MNb == nb
 \* the count the code compares with min_points
 MCount(i) == IF Variant = "count_excl_self" THEN Cardinality(MNb[i] \ {i}) ELSE Cardinality(MNb[i])
 MCore(i) == MCount(i) >= mp
@@ -153,11 +165,13 @@ Metrics(dim) == IF dim <= 1 THEN {"l1"} ELSE {"l1", "l2", "linf"}
 
 Init ==
   /\ alg \in {"dbscan", "optics"}
-  /\ \E lt \in Lattices : \E nn \in 0..MaxPts :
+  /\ \E lt \in Lattices : \E nn \in MinPts..MaxPts :
         /\ pts \in [1..nn -> Points(lt \div 100, lt % 100)]
         /\ metric \in Metrics(lt \div 100)
   /\ mp \in MinPtsSet /\ eps \in {<<x \div 10, x % 10>> : x \in EpsSet}
   /\ inc \in (IF HasOnRadius(DistM(pts, metric), metric, eps[1], eps[2]) THEN BOOLEAN ELSE {FALSE})
+  /\ dm = DistM(pts, metric)
+  /\ nb = NbF(dm, metric, eps[1], eps[2], inc)
   /\ pc = "outer" /\ oi = 1
   /\ lab = [i \in 1..Len(pts) |-> -1] /\ cur = 0 /\ queue = {}
   /\ ord = <<>> /\ processed = {} /\ rch = [i \in 1..Len(pts) |-> -1] /\ seeds = {}
@@ -170,7 +184,7 @@ DSkip ==      \* already labelled, or not a core point: next index
   /\ alg = "dbscan" /\ pc = "outer" /\ oi <= MN
   /\ lab[oi] >= 0 \/ ~MCore(oi)
   /\ oi' = oi + 1
-  /\ UNCHANGED <<alg, pts, metric, mp, eps, inc, pc, lab, cur, queue, ord, processed, rch, seeds>>
+  /\ UNCHANGED <<alg, pts, metric, mp, eps, inc, dm, nb, pc, lab, cur, queue, ord, processed, rch, seeds>>
 
 DSeed ==      \* an unlabelled core point starts cluster `cur`
   /\ alg = "dbscan" /\ pc = "outer" /\ oi <= MN
@@ -178,19 +192,19 @@ DSeed ==      \* an unlabelled core point starts cluster `cur`
   /\ queue' = Fresh(oi)
   /\ lab' = [lab EXCEPT ![oi] = cur]
   /\ pc' = "grow"
-  /\ UNCHANGED <<alg, pts, metric, mp, eps, inc, oi, cur, ord, processed, rch, seeds>>
+  /\ UNCHANGED <<alg, pts, metric, mp, eps, inc, dm, nb, oi, cur, ord, processed, rch, seeds>>
 
-DPop(cand) ==  \* take a candidate from the queue: it joins the cluster; only a core point extends the queue
+DPopC(cand) ==  \* take a candidate from the queue: it joins the cluster; only a core point extends the queue
   /\ alg = "dbscan" /\ pc = "grow" /\ cand \in queue
   /\ lab' = [lab EXCEPT ![cand] = cur]
   /\ queue' = (queue \ {cand}) \cup
                 (IF MCore(cand) \/ Variant = "noncore_extends" THEN Fresh(cand) ELSE {})
-  /\ UNCHANGED <<alg, pts, metric, mp, eps, inc, pc, oi, cur, ord, processed, rch, seeds>>
+  /\ UNCHANGED <<alg, pts, metric, mp, eps, inc, dm, nb, pc, oi, cur, ord, processed, rch, seeds>>
 
 DClose ==     \* queue exhausted: the cluster is complete
   /\ alg = "dbscan" /\ pc = "grow" /\ queue = {}
   /\ cur' = cur + 1 /\ oi' = oi + 1 /\ pc' = "outer"
-  /\ UNCHANGED <<alg, pts, metric, mp, eps, inc, lab, queue, ord, processed, rch, seeds>>
+  /\ UNCHANGED <<alg, pts, metric, mp, eps, inc, dm, nb, lab, queue, ord, processed, rch, seeds>>
 
 (* ---- OPTICS (OpticsValidParams::transform) ---- *)
 MCoreDist(i) == CoreDist(MD, i, mp)
@@ -207,7 +221,7 @@ Upd(o, done, r) ==
 OSkip ==
   /\ alg = "optics" /\ pc = "outer" /\ oi <= MN /\ oi \in processed
   /\ oi' = oi + 1
-  /\ UNCHANGED <<alg, pts, metric, mp, eps, inc, pc, lab, cur, queue, ord, processed, rch, seeds>>
+  /\ UNCHANGED <<alg, pts, metric, mp, eps, inc, dm, nb, pc, lab, cur, queue, ord, processed, rch, seeds>>
 
 OStart ==     \* lowest unprocessed index starts a new walk
   /\ alg = "optics" /\ pc = "outer" /\ oi <= MN /\ oi \notin processed
@@ -225,9 +239,9 @@ OStart ==     \* lowest unprocessed index starts a new walk
                       /\ seeds' = MNb[oi] \ processed'
                       /\ pc' = "seeds"
                  ELSE UNCHANGED <<rch, seeds, pc>>
-  /\ UNCHANGED <<alg, pts, metric, mp, eps, inc, lab, cur, queue>>
+  /\ UNCHANGED <<alg, pts, metric, mp, eps, inc, dm, nb, lab, cur, queue>>
 
-OPop(s) ==    \* a seed of minimum reachability is listed next (ties: any)
+OPopC(s) ==    \* a seed of minimum reachability is listed next (ties: any)
   /\ alg = "optics" /\ pc = "seeds" /\ s \in seeds
   /\ \A u \in seeds : rch[s] <= rch[u]
   /\ processed' = processed \cup {s}
@@ -236,26 +250,29 @@ OPop(s) ==    \* a seed of minimum reachability is listed next (ties: any)
        THEN /\ rch' = Upd(s, processed', rch)
             /\ seeds' = (seeds \ {s}) \cup (MNb[s] \ processed')
        ELSE /\ seeds' = seeds \ {s} /\ UNCHANGED rch
-  /\ UNCHANGED <<alg, pts, metric, mp, eps, inc, pc, oi, lab, cur, queue>>
+  /\ UNCHANGED <<alg, pts, metric, mp, eps, inc, dm, nb, pc, oi, lab, cur, queue>>
 
 OEnd ==
   /\ alg = "optics" /\ pc = "seeds" /\ seeds = {}
   /\ pc' = "outer"
-  /\ UNCHANGED <<alg, pts, metric, mp, eps, inc, oi, lab, cur, queue, ord, processed, rch, seeds>>
+  /\ UNCHANGED <<alg, pts, metric, mp, eps, inc, dm, nb, oi, lab, cur, queue, ord, processed, rch, seeds>>
 
 Done ==
   /\ pc = "outer" /\ oi = MN + 1
   /\ pc' = "done"
-  /\ UNCHANGED <<alg, pts, metric, mp, eps, inc, oi, lab, cur, queue, ord, processed, rch, seeds>>
+  /\ UNCHANGED <<alg, pts, metric, mp, eps, inc, dm, nb, oi, lab, cur, queue, ord, processed, rch, seeds>>
 
-Next == DSkip \/ DSeed \/ (\E cand \in queue : DPop(cand)) \/ DClose
-        \/ OSkip \/ OStart \/ (\E s \in seeds : OPop(s)) \/ OEnd \/ Done
+DPop == \E cand \in queue : DPopC(cand)
+OPop == \E s \in seeds : OPopC(s)
+
+Next == DSkip \/ DSeed \/ DPop \/ DClose \/ OSkip \/ OStart \/ OPop \/ OEnd \/ Done
 
 -----------------------------------------------------------------------------
 (* Invariants of the design *)
 
 \* the statement's relations hold at termination (neighbourhoods by the definition, count includes the point)
-DNb == NbF(MD, metric, eps[1], eps[2], inc)
+DNb == nb
+InvCache == dm = DistM(pts, metric) /\ nb = NbF(dm, metric, eps[1], eps[2], inc)
 InvDbscanDone == (alg = "dbscan" /\ pc = "done") => DbscanOk(lab, DNb, mp)
 InvOpticsDone == (alg = "optics" /\ pc = "done") => OpticsOk(ord, MD, DNb, mp)
 
@@ -289,7 +306,8 @@ InvTight ==
 \* the two formulations of "k-th smallest" agree
 InvKth ==
   pc = "outer" /\ oi = 1 =>
-     \A i \in 1..MN : MN >= mp => CoreDist(MD, i, mp) = KthSmallest(MD[i], mp)
+     /\ \A i \in 1..MN : MN >= mp => CoreDist(MD, i, mp) = KthSmallest(MD[i], mp)
+     /\ \A i \in CoreSet(DNb, mp) : CoreDistNb(MD, DNb, i, mp) = CoreDist(MD, i, mp)
 \* symmetry of neighbourhoods (used by the relation's reading of "reaches")
 InvSym == pc = "outer" /\ oi = 1 => \A i \in 1..MN : \A j \in DNb[i] : i \in DNb[j]
 =============================================================================
